@@ -58,6 +58,24 @@ def nasty_rules(r, letters, cellvals):
     return out
 
 
+def exotic_rules(r, letters):
+    """main-pass opcodes outside the modelled fragment whose handlers move the position themselves (rewind to the word
+    start, translate a whole string in computer braille, skip repetitions ...): any of them can fail to advance"""
+    L = [chr(c) for c in letters if c != 32]
+    w = lambda n: "".join(r.choice(L) for _ in range(n))
+    out = ["punctuation - 36", "digit 1 2", "digit 2 23"]
+    pool = [
+        "seqdelimiter -", "seqbeforechars -", "seqafterchars -", "nocont %s" % w(r.range(1, 3)), "nocont %s" % w(3),
+        "compbrl %s" % w(r.range(1, 2)), "compbrl \\s%s" % w(1), "compbrl %s\\s" % w(1), "compbrl -%s" % w(1), "literal %s" % w(2),
+        "comp6 %s 1-2" % w(1), "repeated -- 36", "repeated %s 14" % (w(1) * 2), "repeated \\s\\s 0",
+        "replace %s %s" % (w(2), w(1)), "replace %s" % w(1), "joinword %s 12" % w(1), "largesign %s 123" % w(2), "contraction %s" % w(2),
+        "hyphen - 36", "begnum 1 3", "midnum - 36", "endnum 1 3", "decpoint . 46", "numsign 3456", "capsletter 6", "lowword %s 15" % w(1),
+        "repword -- 36", "rependword -- 36,36", "syllable %s 1-2" % w(2), "exactdots @12", "noletsign %s" % w(1), "letsign 56",
+        "partword %s 13" % w(2), "always %s 1-1" % w(1), "begword %s 13" % w(2), "always -%s 36" % w(1),
+    ]
+    return out + r.sample(pool, r.range(2, 6))
+
+
 def bound_for(L, O):
     """proved per-pass bound on loop heads: 2*max(L,O)+2 for each of at most 5 passes, forward and backward sites;
     hyphenation: (wordsize+2) * (longest fallback chain) - covered by the same linear budget"""
@@ -83,6 +101,10 @@ def run(chk):
         text = tablegen.pass_table_text(entries, rules)
         if r.chance(0.7):
             text += "\n".join(nasty_rules(r, letters, cellvals)) + "\n"
+        exotic = r.chance(0.4)
+        if exotic:
+            text += "\n".join(exotic_rules(r, letters)) + "\n"
+            letters = letters + [45, 45, 49, 32]
         tf = work / ("t%d.utb" % i)
         tf.write_text(text)
         lists.append((str(tf), letters + [32], [0x8000 | e.dots[0] for e in entries], text))
